@@ -285,13 +285,13 @@ public final class RatOverrides {
             final Value[] n = new Value[f.values.length];
             for (int i = 0; i < n.length; i++) n[i] = force(f.values[i]);
             if (f.intv != null) return new tlc2.value.impl.FcnRcdValue(f.intv, n);
-            return new tlc2.value.impl.FcnRcdValue(f.domain, n, f.isNormalized());
+            return new tlc2.value.impl.FcnRcdValue(f.domain.clone(), n, f.isNormalized());
         }
         if (v instanceof tlc2.value.impl.RecordValue) {
             final tlc2.value.impl.RecordValue r = (tlc2.value.impl.RecordValue) v;
             final Value[] n = new Value[r.values.length];
             for (int i = 0; i < n.length; i++) n[i] = force(r.values[i]);
-            return new tlc2.value.impl.RecordValue(r.names, n, r.isNormalized());
+            return new tlc2.value.impl.RecordValue(r.names.clone(), n, r.isNormalized());   // names cloned: normalisation sorts the arrays in place
         }
         return v;
     }
